@@ -193,3 +193,33 @@ Theorem compiled_scripts_correct :
              (run sfinal (sstep St exec flag_set trainer_beaten cmp_var cmp_var_value case_matches (fun l => fl_body l body Kstop)) n (enter body Kstop) s)).
 Proof. exact C01Top.compiled_scripts_correct. Qed.
 Print Assumptions compiled_scripts_correct.
+
+(* ---------- the label premise stated on the source ---------- *)
+(* The worklist conserves the user's labels: the chunk labels of the final graph are, as a multiset, the labels written in the
+   body (at any depth).  (Also the C04 half "every label the author wrote is carried by exactly one chunk".) *)
+Theorem chunk_labels_are_source_labels :
+  forall body w, emit_graph body = Ok w -> src_ok body ->
+  Permutation.Permutation (LabelSim.chunk_labels (finals w)) (WorkLabels.dlabs body).
+Proof. exact WorkLabels.chunk_labels_are_source_labels. Qed.
+Print Assumptions chunk_labels_are_source_labels.
+
+(* C01 from the source text with one executable premise left (wf_render): the labels of the script are pairwise distinct. *)
+Theorem compiled_scripts_correct_distinct_labels :
+  forall (St : Type) (exec : cmd -> St -> stepres St) (flag_set trainer_beaten : text -> St -> bool)
+         (cmp_var cmp_var_value : text -> text -> St -> comparison) (case_matches : text -> text -> St -> bool)
+         hl hd hs autovars switches ee fc cli_font cli_maxlen (src : text) (p : program),
+  parse_program autovars switches ee (parse_format fc cli_font cli_maxlen ee) (lex hl hd hs src) = Parser.Ok p ->
+  forall body, In body (ProgWf.bodies_of (tops p)) ->
+  NoDup (WorkLabels.dlabs body) ->
+  forall (mp : option text) (tl : list text) (name : text) (glob optimize : bool) (w : wst) (code : list instr),
+  emit_graph body = Ok w ->
+  emit_script mp tl name glob optimize body = Ok code ->
+  wf_render mp name (finals w) (order_of optimize (finals w)) code = true ->
+  (forall n s, exists m,
+      run sfinal (sstep St exec flag_set trainer_beaten cmp_var cmp_var_value case_matches (fun l => fl_body l body Kstop)) n (enter body Kstop) s =
+      run (@tfinal) (tstep St exec flag_set trainer_beaten cmp_var cmp_var_value case_matches code) m (jump code name) s) /\
+  (forall m s, exists n,
+      res_le (run (@tfinal) (tstep St exec flag_set trainer_beaten cmp_var cmp_var_value case_matches code) m (jump code name) s)
+             (run sfinal (sstep St exec flag_set trainer_beaten cmp_var cmp_var_value case_matches (fun l => fl_body l body Kstop)) n (enter body Kstop) s)).
+Proof. exact C01Top.compiled_scripts_correct_distinct_labels. Qed.
+Print Assumptions compiled_scripts_correct_distinct_labels.
